@@ -115,6 +115,8 @@ type FuncCtx struct {
 	labelOf      map[ast.Stmt]string
 	noHeap       bool
 	inlineDepth  int
+	impure       []string
+	loopGhosts   map[int]map[string]Term // ghosts ($i $n $keys $pos $coll $dom) of enclosing/earlier loops, by loop ordinal
 	curSpec      string
 }
 
@@ -167,6 +169,7 @@ func (f *FuncCtx) ghostTerm(st *State, name string) Term {
 }
 
 func (f *FuncCtx) readGlobal(st *State, v *types.Var) Term {
+	f.impure = append(f.impure, "reads global "+v.Name())
 	name := "G_" + v.Pkg().Name() + "_" + v.Name()
 	s := f.w.sortOf(v.Type(), f.bv)
 	return Term{S: f.heapTerm(st, name, s), Sort: s, GoT: v.Type()}
